@@ -1,3 +1,543 @@
 package main
 
-func (run *runner) workAPI(lo, hi int) {}
+// DNSSEC-operation budgets observed at the dnssec package API.
+//
+// The resolver hands the pure validation code a "work" object
+// (dnssec.SignatureWork / DSDigestWork / NSEC3Work) that it must consult
+// immediately before every expensive operation. This part of the monitor
+// drives the REAL validation functions with generated hostile inputs (same-tag
+// key crowds, many signatures per RRset, many DS records, NSEC3 proofs with low
+// and over-the-cap iteration counts) and a counting work object that announces
+// limits exactly like the request-tree ledger does (CheckLocal: used >= limit
+// is refused; Begin*: the limit+1-th operation is refused), and judges
+//
+//   - calls begun never exceed the announced limits, and every expensive
+//     operation was preceded by the limit checks that belong to it;
+//   - the first refusal ABORTS: no further work call, the function returns a
+//     work error (dnssec.IsWorkError) and does not report success;
+//   - every granted operation is released exactly once;
+//   - the limited run is the unlimited run cut at the first refusal (the
+//     operation sequence is a function of the input), and an unlimited work
+//     object changes nothing compared with no work object at all;
+//   - NSEC3 records above the iteration cap cost no hash at all.
+
+import (
+	"encoding/base64"
+	"errors"
+	"fmt"
+	"math/rand/v2"
+	"strings"
+
+	"github.com/miekg/dns"
+	"github.com/semihalev/sdns/middleware/resolver/dnssec"
+	zm "github.com/semihalev/sdns/zzverif/zonemodel"
+)
+
+const unlimited = ^uint32(0)
+
+var errC12WorkRefused = errors.New("c12: work budget refused")
+
+type workEvent struct {
+	Op      string `json:"op"` // cand | rrset | sig | ds | n3
+	Used    uint32 `json:"used"`
+	Granted bool   `json:"granted"`
+}
+
+func (e workEvent) String() string {
+	g := "ok"
+	if !e.Granted {
+		g = "REFUSED"
+	}
+	return fmt.Sprintf("%s(%d)%s", e.Op, e.Used, g)
+}
+
+// WorkLimits are the limits a counting work object announces.
+type WorkLimits struct {
+	Cand  uint32 `json:"dnskey_candidates"`
+	RRset uint32 `json:"rrset_signature_checks"`
+	Sig   uint32 `json:"signature_checks"`
+	DS    uint32 `json:"ds_digests"`
+	N3    uint32 `json:"nsec3_hashes"`
+}
+
+var noLimits = WorkLimits{unlimited, unlimited, unlimited, unlimited, unlimited}
+
+// countingWork implements dnssec.SignatureWork, DSDigestWork and NSEC3Work
+// with the ledger's refusal rules. It deliberately does not implement
+// NSEC3HashMemoProvider: every hash must come and ask.
+type countingWork struct {
+	lim          WorkLimits
+	trace        []workEvent
+	begun        map[string]uint32
+	outstanding  int
+	doubleRel    int
+	refused      bool
+	afterRefusal int
+}
+
+func newCountingWork(l WorkLimits) *countingWork {
+	return &countingWork{lim: l, begun: map[string]uint32{}}
+}
+
+func (w *countingWork) note(op string, used uint32, ok bool) error {
+	if w.refused {
+		w.afterRefusal++
+	}
+	w.trace = append(w.trace, workEvent{op, used, ok})
+	if !ok {
+		w.refused = true
+		return errC12WorkRefused
+	}
+	return nil
+}
+
+func (w *countingWork) CheckDNSKEYCandidate(used uint32) error {
+	return w.note("cand", used, used < w.lim.Cand)
+}
+
+func (w *countingWork) CheckRRsetSignature(used uint32) error {
+	return w.note("rrset", used, used < w.lim.RRset)
+}
+
+func (w *countingWork) begin(op string, limit uint32) (func(), error) {
+	n := w.begun[op]
+	if err := w.note(op, n, n < limit); err != nil {
+		return nil, err
+	}
+	w.begun[op] = n + 1
+	w.outstanding++
+	released := false
+	return func() {
+		if released {
+			w.doubleRel++
+			return
+		}
+		released = true
+		w.outstanding--
+	}, nil
+}
+
+func (w *countingWork) BeginSignature() (func(), error) { return w.begin("sig", w.lim.Sig) }
+func (w *countingWork) BeginDSDigest() (func(), error)  { return w.begin("ds", w.lim.DS) }
+func (w *countingWork) BeginNSEC3Hash() (func(), error) { return w.begin("n3", w.lim.N3) }
+
+// WorkCase is one serialisable DNSSEC work-API case (a function of seed+index
+// except for the key material, which zonemodel draws from crypto/rand).
+type WorkCase struct {
+	Index   int        `json:"index"`
+	Kind    string     `json:"kind"` // rrsig-answer | rrsig-negative | ds | nsec3-nxdomain | nsec3-nodata
+	Clones  int        `json:"same_tag_clone_keys"`
+	Bogus   int        `json:"bogus_signatures_per_rrset_or_ds"`
+	Iter    uint16     `json:"nsec3_iterations"`
+	Split   bool       `json:"split_keys"`
+	Limits  WorkLimits `json:"limits"`
+	MsgHex  string     `json:"message_hex,omitempty"`
+	Keys    []string   `json:"dnskeys,omitempty"`
+	DSSet   []string   `json:"ds,omitempty"`
+	Unlim   []string   `json:"unlimited_trace,omitempty"`
+	Limited []string   `json:"limited_trace,omitempty"`
+}
+
+type workResult struct {
+	ok  bool
+	err error
+}
+
+func (a workResult) same(b workResult) bool {
+	if a.ok != b.ok || (a.err == nil) != (b.err == nil) {
+		return false
+	}
+	return a.err == nil || a.err.Error() == b.err.Error()
+}
+
+func (a workResult) String() string { return fmt.Sprintf("(%v, %v)", a.ok, a.err) }
+
+func traceStrings(t []workEvent) []string {
+	out := make([]string, 0, len(t))
+	for _, e := range t {
+		out = append(out, e.String())
+	}
+	return out
+}
+
+// predict cuts the unlimited trace at the first event the limits refuse.
+func predict(unl []workEvent, l WorkLimits) (want []workEvent, refusal bool) {
+	for i, e := range unl {
+		ok := true
+		switch e.Op {
+		case "cand":
+			ok = e.Used < l.Cand
+		case "rrset":
+			ok = e.Used < l.RRset
+		case "sig":
+			ok = e.Used < l.Sig
+		case "ds":
+			ok = e.Used < l.DS
+		case "n3":
+			ok = e.Used < l.N3
+		}
+		if !ok {
+			want = append(append([]workEvent(nil), unl[:i]...), workEvent{e.Op, e.Used, false})
+			return want, true
+		}
+	}
+	return unl, false
+}
+
+func pickLimit(rng *rand.Rand, xs ...uint32) uint32 { return xs[rng.IntN(len(xs))] }
+
+func keyMapOf(keys []*dns.DNSKEY) map[uint16][]*dns.DNSKEY {
+	m := map[uint16][]*dns.DNSKEY{}
+	for _, k := range keys {
+		m[dnssec.KeyTag(k)] = append(m[dnssec.KeyTag(k)], k)
+	}
+	return m
+}
+
+// bogusSigs returns n copies of sig with pairwise different, wrong signatures.
+func bogusSigs(sig *dns.RRSIG, n int) []dns.RR {
+	var out []dns.RR
+	raw0, err := base64.StdEncoding.DecodeString(sig.Signature)
+	if err != nil || len(raw0) < 8 {
+		return nil
+	}
+	for i := 0; i < n; i++ {
+		raw := append([]byte(nil), raw0...)
+		raw[i%len(raw)] ^= byte(1 + i/len(raw))
+		raw[(i*7+3)%len(raw)] ^= 0x55
+		c := dns.Copy(sig).(*dns.RRSIG)
+		c.Signature = base64.StdEncoding.EncodeToString(raw)
+		if c.Signature != sig.Signature {
+			out = append(out, c)
+		}
+	}
+	return out
+}
+
+func addBogus(section []dns.RR, n int) []dns.RR {
+	var out []dns.RR
+	for _, rr := range section {
+		out = append(out, rr)
+		if sig, ok := rr.(*dns.RRSIG); ok {
+			out = append(out, bogusSigs(sig, n)...)
+		}
+	}
+	return out
+}
+
+func countRRsets(m *dns.Msg) int {
+	seen := map[string]bool{}
+	for si, sec := range [][]dns.RR{m.Answer, m.Ns} {
+		for _, rr := range sec {
+			h := rr.Header()
+			if h.Rrtype == dns.TypeRRSIG || (si == 1 && h.Rrtype == dns.TypeNS) {
+				continue
+			}
+			seen[fmt.Sprintf("%s/%d", strings.ToLower(h.Name), h.Rrtype)] = true
+		}
+	}
+	return len(seen)
+}
+
+var workKinds = []string{"rrsig-answer", "rrsig-negative", "ds", "nsec3-nxdomain", "nsec3-nodata", "rrsig-answer"}
+
+func (run *runner) workAPI(lo, hi int) {
+	for i := lo; i < hi; i++ {
+		run.workCase(i)
+	}
+}
+
+func (run *runner) workCase(index int) {
+	r := run.r
+	rng := r.RandN("workapi", index)
+	c := &WorkCase{Index: index, Kind: workKinds[index%len(workKinds)]}
+	c.Clones = pickInt(rng, 0, 0, 1, 2, 3, 5, 8, 12)
+	c.Bogus = pickInt(rng, 0, 0, 1, 2, 4, 8, 16)
+	c.Split = rng.IntN(2) == 0
+	c.Limits = WorkLimits{
+		Cand:  pickLimit(rng, 1, 2, 3, 4, unlimited, unlimited),
+		RRset: pickLimit(rng, 1, 2, 4, 8, unlimited, unlimited),
+		Sig:   pickLimit(rng, 1, 2, 3, 5, 8, 16, unlimited),
+		DS:    pickLimit(rng, 1, 2, 4, 8, unlimited),
+		N3:    pickLimit(rng, 1, 2, 3, 4, 6, 8, unlimited),
+	}
+	apex := fmt.Sprintf("w%d.test.", index)
+	spec := zm.Spec{Apex: apex, Signed: true, SplitKeys: c.Split}
+	if strings.HasPrefix(c.Kind, "nsec3") {
+		c.Iter = pickU16(rng, 0, 0, 1, 5, 20, 150, 150, 151, 500, 2500)
+		spec.NSEC3 = &zm.NSEC3Params{Salt: "c12b", Iterations: c.Iter}
+	} else if c.Kind == "rrsig-negative" && rng.IntN(2) == 0 {
+		spec.NSEC3 = &zm.NSEC3Params{Salt: "", Iterations: 0}
+	}
+	z := zm.New(spec)
+	z.AddMarked("www."+apex, dns.TypeA, 300)
+	z.AddMarked("mail."+apex, dns.TypeA, 300)
+	z.AddMarked("a.b."+apex, dns.TypeTXT, 300)
+
+	var keys []*dns.DNSKEY
+	for _, k := range z.Keys() {
+		keys = append(keys, k.DNSKEY)
+		for _, cl := range cloneKeys(k.DNSKEY, c.Clones) {
+			keys = append(keys, cl.DNSKEY)
+		}
+	}
+	// deterministic shuffle: candidate order must not depend on input order
+	rng.Shuffle(len(keys), func(a, b int) { keys[a], keys[b] = keys[b], keys[a] })
+	for _, k := range keys {
+		c.Keys = append(c.Keys, k.String())
+	}
+
+	ask := func(name string, t uint16) *dns.Msg {
+		q := new(dns.Msg)
+		q.SetQuestion(name, t)
+		q.SetEdns0(1232, true)
+		return z.Respond(q)
+	}
+
+	var call func(w *countingWork) workResult
+	singleRRset := false
+	aboveCap := false
+	switch c.Kind {
+	case "rrsig-answer", "rrsig-negative":
+		var m *dns.Msg
+		if c.Kind == "rrsig-answer" {
+			m = ask("www."+apex, dns.TypeA)
+		} else {
+			m = ask("nx."+apex, dns.TypeA)
+		}
+		m.Answer = addBogus(m.Answer, c.Bogus)
+		m.Ns = addBogus(m.Ns, c.Bogus)
+		singleRRset = countRRsets(m) == 1
+		if b, err := m.Pack(); err == nil {
+			c.MsgHex = fmt.Sprintf("%x", b)
+		}
+		km := keyMapOf(keys)
+		call = func(w *countingWork) workResult {
+			var ok bool
+			var err error
+			if w == nil {
+				ok, err = dnssec.VerifyRRSIG(apex, km, m)
+			} else {
+				ok, err = dnssec.VerifyRRSIGWithWork(apex, km, m, w)
+			}
+			return workResult{ok, err}
+		}
+	case "ds":
+		good := z.DS(300)
+		ds := append([]dns.RR(nil), good...)
+		g := good[0].(*dns.DS)
+		for i := 0; i < c.Bogus; i++ {
+			d := dns.Copy(g).(*dns.DS)
+			d.Digest = fmt.Sprintf("%064x", uint64(i)+1)
+			ds = append(ds, d)
+		}
+		if rng.IntN(4) == 0 {
+			// nothing matches: every candidate of every DS is tried
+			ds = ds[len(good):]
+			if len(ds) == 0 {
+				d := dns.Copy(g).(*dns.DS)
+				d.Digest = fmt.Sprintf("%064x", 0xdead)
+				ds = append(ds, d)
+			}
+		}
+		rng.Shuffle(len(ds), func(a, b int) { ds[a], ds[b] = ds[b], ds[a] })
+		for _, d := range ds {
+			c.DSSet = append(c.DSSet, d.String())
+		}
+		km := keyMapOf(keys)
+		call = func(w *countingWork) workResult {
+			var ok bool
+			var err error
+			if w == nil {
+				ok, err = dnssec.VerifyDS(km, ds)
+			} else {
+				ok, err = dnssec.VerifyDSWithWork(km, ds, w)
+			}
+			return workResult{ok, err}
+		}
+	case "nsec3-nxdomain", "nsec3-nodata":
+		var m *dns.Msg
+		if c.Kind == "nsec3-nxdomain" {
+			m = ask(pickStr(rng, "nx.", "x.y.z.", "zz.b.")+apex, dns.TypeA)
+		} else {
+			m = ask(pickStr(rng, "www.", "b.", "a.b.")+apex, dns.TypeAAAA)
+		}
+		var n3 []dns.RR
+		for _, rr := range m.Ns {
+			if rr.Header().Rrtype == dns.TypeNSEC3 {
+				n3 = append(n3, rr)
+			}
+		}
+		if b, err := m.Pack(); err == nil {
+			c.MsgHex = fmt.Sprintf("%x", b)
+		}
+		aboveCap = c.Iter > 150
+		nx := c.Kind == "nsec3-nxdomain"
+		call = func(w *countingWork) workResult {
+			var ok bool
+			var err error
+			var work dnssec.NSEC3Work
+			if w != nil {
+				work = w
+			}
+			if nx {
+				ok, err = dnssec.VerifyNameErrorForZoneWithWork(m, n3, apex, work)
+			} else {
+				ok, err = dnssec.VerifyNODATAForZoneWithWork(m, n3, apex, work)
+			}
+			return workResult{ok, err}
+		}
+	}
+
+	guard := func(name string, w *countingWork) (res workResult, panicked bool) {
+		defer func() {
+			if p := recover(); p != nil {
+				panicked = true
+				r.Violation("panic/dnssec-work-api", fmt.Sprintf("%s case %d: %s panicked: %v", c.Kind, index, name, p), run.workReplay(c))
+			}
+		}()
+		return call(w), false
+	}
+
+	rA, p1 := guard("verification without a work object", nil)
+	wB := newCountingWork(noLimits)
+	rB, p2 := guard("verification with an unlimited work object", wB)
+	wC := newCountingWork(c.Limits)
+	rC, p3 := guard("verification with a limited work object", wC)
+	if p1 || p2 || p3 {
+		return
+	}
+	c.Unlim = traceStrings(wB.trace)
+	c.Limited = traceStrings(wC.trace)
+	r.Eval(1)
+	r.Count("workapi_cases", 1)
+	r.Count("workapi_kind/"+c.Kind, 1)
+	ops := 0
+	for _, e := range wB.trace {
+		if e.Op == "sig" || e.Op == "ds" || e.Op == "n3" {
+			ops++
+		}
+	}
+	r.Max("workapi_max_expensive_ops_unlimited", int64(ops))
+	if ops > 0 {
+		r.Count("workapi_cases_with_expensive_ops", 1)
+		r.DistinctIn("workapi_shapes", fmt.Sprintf("%s/c%d/b%d/i%d/ops%d", c.Kind, c.Clones, c.Bogus, c.Iter, ops))
+	}
+	rc := run.workReplay(c)
+
+	// (1) an unlimited work object changes nothing
+	if !rA.same(rB) {
+		r.Violation("workapi/unlimited-work-changes-result", fmt.Sprintf("%s case %d: without a work object the verification returned %s, with an unlimited one %s", c.Kind, index, rA, rB), rc)
+	} else {
+		r.Count("workapi_unlimited_agreement", 1)
+	}
+	if rB.err != nil && dnssec.IsWorkError(rB.err) {
+		r.Violation("workapi/work-error-without-refusal", fmt.Sprintf("%s case %d: the unlimited work object refused nothing, yet the result is the work error %v", c.Kind, index, rB.err), rc)
+	}
+
+	// (2) protocol of the unlimited run: checks precede every expensive
+	// operation and report honest "used" counts
+	prevCand, prevRRset := int64(-1), int64(-1)
+	sawCand, sawRRset := false, false
+	sigs := uint32(0)
+	for _, e := range wB.trace {
+		switch e.Op {
+		case "cand":
+			if !(e.Used == 0 || int64(e.Used) == prevCand+1) {
+				r.Violation("workapi/candidate-count-not-monotone", fmt.Sprintf("%s case %d: CheckDNSKEYCandidate(%d) after (%d); trace %v", c.Kind, index, e.Used, prevCand, c.Unlim), rc)
+			}
+			prevCand, sawCand = int64(e.Used), true
+		case "rrset":
+			if !(e.Used == 0 || int64(e.Used) == prevRRset+1) {
+				r.Violation("workapi/rrset-signature-count-not-monotone", fmt.Sprintf("%s case %d: CheckRRsetSignature(%d) after (%d); trace %v", c.Kind, index, e.Used, prevRRset, c.Unlim), rc)
+			}
+			if singleRRset && e.Used != sigs {
+				r.Violation("workapi/rrset-signature-count-understated", fmt.Sprintf("%s case %d: one RRset, %d signature operations begun so far, but CheckRRsetSignature(%d); trace %v", c.Kind, index, sigs, e.Used, c.Unlim), rc)
+			}
+			prevRRset, sawRRset = int64(e.Used), true
+		case "sig":
+			if !sawCand || !sawRRset {
+				r.Violation("workapi/signature-begun-without-limit-checks", fmt.Sprintf("%s case %d: BeginSignature #%d not preceded by CheckDNSKEYCandidate and CheckRRsetSignature; trace %v", c.Kind, index, e.Used, c.Unlim), rc)
+			}
+			sawCand, sawRRset = false, false
+			sigs++
+		case "ds":
+			if !sawCand {
+				r.Violation("workapi/ds-digest-begun-without-limit-check", fmt.Sprintf("%s case %d: BeginDSDigest #%d not preceded by CheckDNSKEYCandidate; trace %v", c.Kind, index, e.Used, c.Unlim), rc)
+			}
+			sawCand = false
+		}
+	}
+	if aboveCap {
+		r.Count("workapi_nsec3_above_iteration_cap_cases", 1)
+		if wB.begun["n3"] > 0 {
+			r.Violation("workapi/nsec3-hashed-above-iteration-cap", fmt.Sprintf("%s case %d: NSEC3 records with %d iterations caused %d hash operations (cap 150)", c.Kind, index, c.Iter, wB.begun["n3"]), rc)
+		}
+		if rB.err == nil {
+			r.Violation("workapi/nsec3-above-iteration-cap-accepted", fmt.Sprintf("%s case %d: a denial proof with %d NSEC3 iterations was accepted", c.Kind, index, c.Iter), rc)
+		}
+	} else if strings.HasPrefix(c.Kind, "nsec3") {
+		r.Count("workapi_nsec3_within_cap_cases", 1)
+		if wB.begun["n3"] > 0 {
+			r.Count("workapi_nsec3_within_cap_hashed", 1)
+		}
+	}
+
+	// (3) the limited run
+	want, refusal := predict(wB.trace, c.Limits)
+	for _, w := range []*countingWork{wB, wC} {
+		if w.outstanding != 0 || w.doubleRel != 0 {
+			r.Violation("workapi/release-imbalance", fmt.Sprintf("%s case %d: %d granted operations never released, %d released twice", c.Kind, index, w.outstanding, w.doubleRel), rc)
+		}
+	}
+	if wC.begun["sig"] > c.Limits.Sig || wC.begun["ds"] > c.Limits.DS || wC.begun["n3"] > c.Limits.N3 {
+		r.Violation("workapi/begun-exceeds-limit", fmt.Sprintf("%s case %d: begun %v with limits %+v", c.Kind, index, wC.begun, c.Limits), rc)
+	}
+	if wC.afterRefusal > 0 {
+		r.Violation("workapi/work-continued-after-refusal", fmt.Sprintf("%s case %d: %d further work calls after the work object refused; limited trace %v", c.Kind, index, wC.afterRefusal, c.Limited), rc)
+	}
+	if wC.refused {
+		r.Count("workapi_refusals_observed", 1)
+		switch {
+		case rC.err == nil || rC.ok:
+			r.Violation("workapi/refusal-did-not-abort", fmt.Sprintf("%s case %d: the work object refused (%v) but the verification returned %s", c.Kind, index, c.Limited[len(c.Limited)-1], rC), rc)
+		case !dnssec.IsWorkError(rC.err) || !errors.Is(rC.err, errC12WorkRefused):
+			r.Violation("workapi/refusal-not-reported-as-work-error", fmt.Sprintf("%s case %d: the work object refused (%v) but the verification returned %s, which is not a work error — the caller would treat it as an ordinary validation failure", c.Kind, index, c.Limited[len(c.Limited)-1], rC), rc)
+		default:
+			r.Count("workapi_aborts_checked", 1)
+		}
+	}
+	same := len(want) == len(wC.trace)
+	for i := 0; same && i < len(want); i++ {
+		same = want[i] == wC.trace[i]
+	}
+	switch {
+	case !same:
+		r.Violation("workapi/limited-run-is-not-the-unlimited-run-cut-at-the-limit", fmt.Sprintf("%s case %d limits %+v: expected %v, observed %v", c.Kind, index, c.Limits, traceStrings(want), c.Limited), rc)
+	case !refusal:
+		r.Count("workapi_limited_runs_within_limits", 1)
+		if !rC.same(rB) {
+			r.Violation("workapi/within-limits-result-differs", fmt.Sprintf("%s case %d: nothing was refused, yet the limited run returned %s and the unlimited one %s", c.Kind, index, rC, rB), rc)
+		}
+	}
+	if index < 2 {
+		r.Sample(map[string]any{"dnssec_work_api_case": c.Kind, "index": index, "same_tag_clones": c.Clones, "bogus": c.Bogus, "nsec3_iterations": c.Iter,
+			"limits": fmt.Sprintf("%+v", c.Limits), "no_work": rA.String(), "unlimited": rB.String(), "limited": rC.String(),
+			"unlimited_trace_len": len(wB.trace), "limited_trace_tail": tail(c.Limited, 4)})
+	}
+}
+
+func tail(s []string, n int) []string {
+	if len(s) > n {
+		return s[len(s)-n:]
+	}
+	return s
+}
+
+func pickInt(rng *rand.Rand, xs ...int) int       { return xs[rng.IntN(len(xs))] }
+func pickU16(rng *rand.Rand, xs ...uint16) uint16 { return xs[rng.IntN(len(xs))] }
+func pickStr(rng *rand.Rand, xs ...string) string { return xs[rng.IntN(len(xs))] }
+
+func (run *runner) workReplay(c *WorkCase) ReplayCase {
+	return ReplayCase{Seed: run.r.Seed, Index: c.Index, Topology: &TopoSpec{Index: c.Index, Kind: "dnssec-work-api", Variant: c.Kind}, Extra: c}
+}
